@@ -1,9 +1,140 @@
-import Lean.Data.Json
-/-! Driver handlers for property C02: `handle op request` answers one JSON request. -/
+import PydjinniModel.Drv.GenJson
+import PydjinniModel.Gen.Fidelity
+import PydjinniModel.Gen.IdentSpec
+/-! Driver handlers for property C02: identifier conversion, per-target type mapping (model and reference),
+    declaration skeletons (model) and the fidelity specification on an extracted skeleton. -/
 namespace Pydjinni.Drv.C02
-open Lean
+open Lean Pydjinni.Gen Pydjinni.Drv.GenJson
 
-def handle (op : String) (_req : Json) : Except String Json :=
-  throw s!"unknown op {op}"
+def convertOp (req : Json) : Except String Json := do
+  let items ← getArr req "items"
+  let out ← items.mapM (fun it => do
+    let st ← getStyle it "style"
+    let s ← getStr it "s"
+    pure (Json.str (convert st s)))
+  pure (Json.mkObj [("out", Json.arr out.toArray)])
+
+def S (k v : String) : String × Json := (k, Json.str v)
+def B (k : String) (v : Bool) : String × Json := (k, Json.bool v)
+def L (k : String) (v : List String) : String × Json := (k, strsJ v)
+
+/-- `spec` for identifier conversion on implementation outputs: `items = [{style, s, out}]` -/
+def convertSpecOp (req : Json) : Except String Json := do
+  let items ← getArr req "items"
+  let out ← items.mapM (fun it => do
+    let st ← getStyle it "style"
+    let s ← getStr it "s"
+    let o ← getStr it "out"
+    pure (Json.bool (convertSpec st s.toList o.toList)))
+  pure (Json.mkObj [("out", Json.arr out.toArray)])
+
+/-- every marshalling attribute of one type reference, model side and reference side -/
+def typeAnswer (c : Cfg) (t : RType) : Json :=
+  let d := t.def'
+  Json.mkObj [
+    S "cpp_field" (cppSpec c.cpp t false false), S "cpp_param" (cppSpec c.cpp t true true), S "cpp_ret" (cppSpec c.cpp t false true),
+    S "cpp_typename" (cppTypename c.cpp d), S "cpp_header" (cppHeader c.cpp d), B "cpp_by_value" (cppByValue d),
+    S "java_field" (javaDataType c.java t false), S "java_boxed_field" (javaDataType c.java t true),
+    S "java_typename" (javaTypename c.java d), S "java_boxed" (javaBoxed c.java d),
+    S "jni_sig" (jniTypeSig c.java c.jni d), S "jni_boxed_sig" (jniBoxedSig c.java c.jni d),
+    S "jni_desc" (match d with | .builtin _ => "" | d => jniClassDescriptor c.java c.jni d),
+    S "jni_prefix" (match d with | .builtin _ => "" | d => jniPrefix (jniPrefixSegments c.java c.jni d)),
+    S "jni_header" (jniHeader c.jni d), S "jni_typename" (jniGetTypename t), S "jni_native" (jniNativeType d),
+    S "objc_field" (objcTypeDecl c.objc t false false), S "objc_param" (objcTypeDecl c.objc t true false),
+    S "objc_boxed" (objcTypeDecl c.objc t false true),
+    S "objc_typename" (objcTypename c.objc d), S "objc_header" (objcHeader c.objc d), S "objcpp_header" (objcppHeader c.objcppHeaderExt d),
+    S "objc_annotation" (objcAnnotation (some t) false), B "objc_pointer" (objcPointer d),
+    S "cli_typename" (cliTypename c.cli t), S "cli_def_typename" (cliDefTypename c.cli d), S "cli_header" (cliHeader c.cli d),
+    B "cli_reference" (cliReference d),
+    S "java_desc" (desc (javaJT c.java t false)), S "java_boxed_desc" (desc (javaJT c.java t true)),
+    S "java_print" (printJ (javaJT c.java t false)),
+    -- reference mapping
+    S "ref_cpp_field" (printT (refCpp c.cpp t .field)), S "ref_cpp_param" (printT (refCpp c.cpp t .param)), S "ref_cpp_ret" (printT (refCpp c.cpp t .result)),
+    S "ref_java_field" (printT (refJava c.java t false)), S "ref_java_boxed_field" (printT (refJava c.java t true)),
+    S "ref_objc_field" (printT (refObjc c.objc t false false)), S "ref_objc_param" (printT (refObjc c.objc t true false)),
+    S "ref_objc_boxed" (printT (refObjc c.objc t false true)),
+    S "ref_cli_typename" (printT (refCli c.cli t))]
+
+def methodAnswer (c : Cfg) (m : MethodD) : Json :=
+  let ps := m.params.map (·.ty)
+  Json.mkObj [
+    S "cpp_type_spec" (cppMethodRet c.cpp m), L "cpp_prefix" (cppPrefix m), L "cpp_postfix" (cppPostfix m),
+    S "cpp_callback" (cppSpecOpt c.cpp m.ret true false),
+    S "java_return" (javaReturnType c.java m.ret m.isAsync),
+    S "jni_sig" (jniMethodSig c.java c.jni ps m.ret m.isAsync), S "jni_return_spec" (jniReturnTypeSpec m.ret m.isAsync),
+    S "java_desc" (methodDesc (paramJTs c.java m.params) (javaRetJT c.java m.ret m.isAsync)),
+    S "objc_return" (objcTypeDeclO c.objc m.ret), S "objc_completion" (objcCompletion c.objc m),
+    S "cli_return" (cliTypenameO c.cli m.ret m.isAsync),
+    S "ref_java_return" (printT (refJavaRet c.java m.ret m.isAsync)),
+    S "ref_cli_return" (printT (refCliRet c.cli m.ret m.isAsync))]
+
+def typesOp (req : Json) : Except String Json := do
+  let cm ← decodeCommon req
+  let qs ← getArr req "queries"
+  let out ← qs.mapM (fun q =>
+    match q.getObjVal? "t" with
+    | .ok tj => do
+      let t ← decodeType cm.env 12 tj
+      pure (typeAnswer cm.cfg t)
+    | .error _ => do
+      let mj ← q.getObjVal? "m"
+      let m : MethodD := {
+        name := "m", params := ← decodeFields cm.env mj "params", ret := ← decodeTypeO cm.env mj "ret",
+        isStatic := ← getBool mj "static", isConst := ← getBool mj "const", isAsync := ← getBool mj "async",
+        throwing := ← decodeThrowing cm.env mj }
+      pure (methodAnswer cm.cfg m))
+  pure (Json.mkObj [("out", Json.arr out.toArray)])
+
+def targets : List (String × Target) := [("cpp", .cpp), ("java", .java), ("objc", .objc), ("cppcli", .cppcli)]
+
+def skelOp (req : Json) : Except String Json := do
+  let cm ← decodeCommon req
+  let ds ← getArr req "decls"
+  let out ← ds.mapM (fun dj => do
+    let d ← decodeDecl cm.env dj
+    pure (Json.mkObj (targets.map (fun (k, t) => (k, declSJ (apiSkel t cm.cfg d))))))
+  pure (Json.mkObj [("out", Json.arr out.toArray)])
+
+def decodeMembers (j : Json) (k : String) : Except String (List MemberS) := do
+  let a ← getArr j k
+  a.mapM (fun m => match m with
+    | .arr #[.str ty, .str name] => pure { ty := ty, name := name }
+    | _ => throw s!"{k}: [type, name] expected")
+
+def decodeDeclS (j : Json) : Except String DeclS := do
+  let ms ← getArr j "methods"
+  let methods ← ms.mapM (fun m => do
+    pure { pre := ← getStrs m "pre", ret := ← getStr m "ret", name := ← getStr m "name", params := ← decodeMembers m "params", post := ← getStrs m "post" : MethodS })
+  let cs ← getArr j "codes"
+  let codes ← cs.mapM (fun k => do
+    pure { name := ← getStr k "name", fields := ← decodeMembers k "fields", ctor := ← decodeMembers k "ctor" : CodeS })
+  pure { kind := ← getStr j "kind", name := ← getStr j "name", scope := ← getStr j "scope", mods := ← getStrs j "mods",
+         fields := ← decodeMembers j "fields", ctor := ← decodeMembers j "ctor", methods := methods, items := ← getStrs j "items", codes := codes }
+
+/-- `spec.C02` on extracted skeletons: `cases = [{"decl": <index into decls>, "target": "cpp", "skel": {...}}]` -/
+def specOp (req : Json) : Except String Json := do
+  let cm ← decodeCommon req
+  let ds ← getArr req "decls"
+  let decls ← ds.mapM (decodeDecl cm.env)
+  let cases ← getArr req "cases"
+  let out ← cases.mapM (fun cj => do
+    let i ← cj.getObjValAs? Nat "decl"
+    let ts ← getStr cj "target"
+    let sk ← cj.getObjVal? "skel" >>= decodeDeclS
+    match decls[i]?, Target.ofString? ts with
+    | some d, some t =>
+      let failed := fidelity t cm.cfg d sk
+      pure (Json.mkObj [("holds", failed.isEmpty), ("failed", strsJ failed)])
+    | _, _ => throw s!"bad case (decl {i}, target {ts})")
+  pure (Json.mkObj [("out", Json.arr out.toArray)])
+
+def handle (op : String) (req : Json) : Except String Json :=
+  match op with
+  | "c02.convert" => convertOp req
+  | "c02.convertSpec" => convertSpecOp req
+  | "c02.types" => typesOp req
+  | "c02.skel" => skelOp req
+  | "c02.spec" => specOp req
+  | _ => throw s!"unknown op {op}"
 
 end Pydjinni.Drv.C02
